@@ -35,6 +35,20 @@ Definition rolling_diff (periods : nat) (x : list F) : list (option F) :=
   let d := zip_with (fsub O) (skipn periods x) (firstn (n - periods) x) in
   set_upto (set_from out periods (map Some d)) periods None.
 
+(* _get_rolling_diff_backward(periods)(x), periods >= 0 the index distance forwards (get_rolling_diff sends its
+   non-positive periods here, negated):
+     if periods == 0: return x - x
+     out = empty_like(x); out = out.at[:-periods].set(x[:-periods] - x[periods:]); out = out.at[-periods:].set(nan)
+   (x[:-k] is the first len - k entries, .at[-k:] the positions from len - k on) *)
+Definition rolling_diff_backward (periods : nat) (x : list F) : list (option F) :=
+  let n := length x in
+  match periods with
+  | 0 => map Some (zip_with (fsub O) x x)
+  | _ => let out := repeat (Some (f0 O)) n in
+         let d := zip_with (fsub O) (firstn (n - periods) x) (skipn periods x) in
+         set_from (set_from out 0 (map Some d)) (n - periods) (repeat None n)
+  end.
+
 (* _rolling_index(a, window): rows a[i : i + window] for i = 0 .. len(a) - window *)
 Definition rolling_windows (window : nat) (x : list F) : list (list F) :=
   map (fun i => firstn window (skipn i x)) (seq 0 (if window <=? length x then length x - window + 1 else 0)).
